@@ -22,7 +22,7 @@ def run_node(ctx, pid):
         ctx.extra["model_selftests"] = 1
     scheds = []
     seen = set()
-    for h in ctx.tlc_sim("node", "NodeSim.tla", "Sim_Node.cfg" if q else "Sim_Node_t.cfg", num=10 if q else 300, depth=160 if q else 400, timeout=900):
+    for h in ctx.tlc_sim("node", "NodeSim.tla", "Sim_Node.cfg" if q else "Sim_Node_t.cfg", num=10 if q else 300, depth=320 if q else 480, timeout=900):
         k = json.dumps(h)
         if k not in seen:
             seen.add(k)
@@ -35,7 +35,7 @@ def run_node(ctx, pid):
     ind = os.path.join(ctx.work, "in-c01")
     os.makedirs(ind, exist_ok=True)
     json.dump(scheds, open(os.path.join(ind, "schedules.json"), "w"))
-    res = ctx.go_driver("c01node", "TestDriver", env={"VERIF_IN": ind}, timeout=3000)
+    res = ctx.go_driver("c01node", "TestDriver", env={"VERIF_IN": ind, "VERIF_LONG_WORLDS": (2 if q else 6) if pid == "C01" else 0}, timeout=3000)
     ctx.absorb(res)
     return res
 
@@ -56,6 +56,8 @@ def judge(ctx, res, wanted=None):
             comps = sorted(k for k in dg if prev.get(k) != dg.get(k))
         for w in sorted(f["what"]):
             sig = {"kind": w, "cfg": ev.get("cfg"), "components": comps}
+            if ev.get("ground"):
+                sig["ground"] = ev["ground"]
             ctx.violation(sig, {"what": "%s false at %s of replica %s height %s; differing components %s" % (
                 w, ev.get("event"), ev.get("cfg"), ev.get("h"), comps), "event": ev, "line": f["line"]})
     return events, fails
